@@ -45,6 +45,12 @@ def reg_name(draw, titan=False):
     kind = draw(st.integers(0, 9))
     if kind <= 4:  # plain dns-like name
         labels = draw(st.lists(st.text(ALNUM + "-", min_size=1, max_size=8), min_size=1, max_size=3))
+        if draw(st.integers(0, 7)) == 0:
+            # RFC 3986 puts no length limit on a reg-name or on its labels (the DNS limits of 63 / 255 are not URI syntax)
+            n = draw(st.sampled_from([63, 64, 65, 100, 200, 260]))
+            labels[draw(st.integers(0, len(labels) - 1))] = draw(st.sampled_from(["b", "x9", "h-"])) * n
+            labels = [lb[:n] for lb in labels]
+            return ".".join(labels), ["host:dns", "host:long-label"]
         return ".".join(labels), ["host:dns"]
     if kind <= 6:
         ip = ".".join(str(draw(st.integers(0, 255))) for _ in range(4))
